@@ -45,10 +45,32 @@ def run(ck, prog):
     # delta
     f, code = pair.code_rows(SEQ, "Sequence.delta")
     ref = pair.ref_rows("Sequence.delta")
-    compare_tables(ck, "ALG", SEQ_PATH + ":Sequence.delta", subst_rows(code, TRI), subst_rows(ref, TRI), "delta",
+    code_x, ref_x = subst_rows(code, TRI), subst_rows(ref, TRI)
+    if any(isinstance(c, tuple) and "N" in _atoms_of_cond(c) for cs, _ in code_x for c in cs):
+        # the code branches on the length (a fast path for short sequences): make the window sums canonical where a blob size admits no
+        # window or exactly one (the window is then the whole sequence and its sigma the global one)
+        from lcsa.ref import expand_small_windows
+        code_x = expand_small_windows(code_x, pair.code.wsums, domain=_dom())
+        ref_x = expand_small_windows(ref_x, pair.code.wsums, domain=_dom())
+    compare_tables(ck, "ALG", SEQ_PATH + ":Sequence.delta", code_x, ref_x, "delta",
                    where=f.loc(), domain=_dom(), norm=empty_sum_norm(pair.code.wsums), note="(deltaForm(5) + deltaForm(6)) / 2")
     check_api(ck, prog, [("get_delta", "delta", None)])
     ck.floor("window sums", len(pair.code.wsums), 2)
+
+
+def _atoms_of_cond(c):
+    if isinstance(c, bool):
+        return set()
+    if c[0] == "cmp":
+        return c[1].atoms() | c[3].atoms()
+    if c[0] == "not":
+        return _atoms_of_cond(c[1])
+    if c[0] in ("and", "or"):
+        out = set()
+        for x in c[1]:
+            out |= _atoms_of_cond(x)
+        return out
+    return set()
 
 
 def _dom():
